@@ -1300,8 +1300,50 @@ def b_id(ex, st, args, kwargs, node):
 @builtin('iter')
 def b_iter(ex, st, args, kwargs, node):
     if len(args) == 1:
+        if isinstance(args[0], VOpaque):
+            # an iterator over an unknown object: unknown, but a function of that object
+            return [(st, VOpaque(z3.Function('opaque_iter', ObjSort, ObjSort)(args[0].t)))]
         return as_seq(ex, st, args[0])
+    if len(args) == 2 and isinstance(args[0], VFunc) and not st.spec:
+        # iter(callable, sentinel): the chunks the callable will deliver - nothing is called now
+        ex.used_stubs.add('iter(callable, sentinel): an unknown iterator (the callable is not invoked at construction)')
+        return [(st, VOpaque(name='iter_callable'))]
     raise Unsupported('iter(callable, sentinel)')
+
+
+@builtin('hasattr')
+def b_hasattr(ex, st, args, kwargs, node):
+    o, name = args
+    nm = name.conc() if isinstance(name, VStr) else None
+    if nm is None:
+        raise Unsupported('hasattr with a symbolic name')
+    if isinstance(o, VOpt):
+        res = []
+        for s2, fv in ex.force(st, o):
+            res.extend(b_hasattr(ex, s2, [fv, name], kwargs, node))
+        return res
+    if isinstance(o, VOpaque):
+        import re as _re
+        ex.used_stubs.add('hasattr(unknown value, name): unknown but functional')
+        f = z3.Function('opaque_hasattr_' + _re.sub(r'[^A-Za-z0-9_]', '_', nm), ObjSort, z3.BoolSort())
+        return [(st, VBool(f(o.t)))]
+    if isinstance(o, VObj):
+        cdecl = ex.reg.class_decl(o.cls, ex.db)
+        if (cdecl is not None and nm in cdecl['fields']) or nm in st.heap.get(o.ref, {}):
+            return [(st, VBool(True))]
+        ci = ex.class_info(o.cls)
+        if ci is not None and (ex.db.find_method(ci, nm) is not None or ex.db.find_class_attr(ci, nm) is not None):
+            return [(st, VBool(True))]
+        raise Unsupported('hasattr on an object whose attribute %s is not declared' % nm)
+    # builtin value shapes: lists, strings, numbers, None have none of the file-like / mapping attributes asked for in the code base
+    known = {'seq': ('append', 'extend', 'index', 'count', '__iter__', '__len__', '__getitem__'),
+             'str': ('encode', 'decode', 'lower', 'upper', 'split', 'join', 'startswith', 'endswith', '__len__', '__iter__'),
+             'dict': ('keys', 'values', 'items', 'get', '__iter__', '__len__', '__getitem__')}
+    if o.shape in known:
+        return [(st, VBool(nm in known[o.shape]))]
+    if o.shape in ('none', 'int', 'real', 'bool'):
+        return [(st, VBool(False))] if not nm.startswith('__') else (_ for _ in ()).throw(Unsupported('hasattr dunder on number'))
+    raise Unsupported('hasattr on %s' % o.shape)
 
 
 @builtin('next')
